@@ -147,3 +147,50 @@ Proof. cbn zeta. split; [unfold aframe_ok, sid_ok, pad_ok, prio_ok, two31; cbn; 
 
 (* with C07's theorem (Props/C07_h2.v c07_h2_segmentation_independent) every frame sequence parses
    identically however it is cut. *)
+
+(* ------------------------------------------------------------------ HEADERS / CONTINUATION aggregation *)
+From MV Require Import Proofs.H2FrameMeta.
+
+(* the CONTINUATION frames that follow a HEADERS frame without END_HEADERS are collected in order, each
+   once, whatever their number and sizes (empty fragments included), and exactly their bytes are accounted
+   for; anything may follow.  (Before the repair of readMetaFrame the second CONTINUATION was never reached:
+   Props/C08_h2.v c08_h2_reader_loop_refuted_before_repair.) *)
+Theorem c18_continuation_aggregation : forall cs sid mx drains fuel pre rest off msize acc,
+  cs <> [] -> sid_ok sid ->
+  Forall (fun f => len f < 16777216 /\ len f <= mx) cs ->
+  (length cs <= fuel)%nat -> len pre = off + msize ->
+  collect true true drains fuel sid mx (pre ++ ser_conts sid cs ++ rest) off msize acc =
+  COk (acc ++ cs) (msize + len (ser_conts sid cs)).
+Proof. exact collect_ser. Qed.
+Print Assumptions c18_continuation_aggregation.
+
+(* frame layer and HPACK composed: a HEADERS frame (any padding / priority / END_STREAM) whose fragment is
+   a complete header block of ANY valid representations - from MOSN's or x/net's encoder - of fields the
+   reader's validation accepts (sink_run: lower-case token names, no control characters in values,
+   pseudo-headers first, list size within MaxHeaderListSize; check_pseudos) is returned as a
+   MetaHeadersFrame with exactly those fields, the bytes of the frame are consumed, and the reader's HPACK
+   table is the one the representations lead to. *)
+Theorem c18_headers_block_roundtrip : forall st sid es pr pad rs t' fs rest sk',
+  fs_last st = 0 ->
+  let a := AHeaders sid es true pr (flat_map ser_repr rs) pad in
+  aframe_ok a ->
+  (let '(t, fl, s, p) := aframe_parts a in len p < 16777216 /\ len p <= fs_max st) ->
+  d_save (fs_dec st) = [] -> d_first (fs_dec st) = true ->
+  dt_allowed (d_tab (fs_dec st)) < 2 ^ 32 ->
+  rs <> [] -> reprs_shape true rs -> Forall (repr_ok (fs_maxlist st)) rs ->
+  interp_reprs (d_tab (fs_dec st)) rs = Some (t', fs) ->
+  Forall (field_fits (fs_maxlist st)) fs ->
+  sink_run (mkSink (fs_maxlist st) false false false []) fs = Some sk' ->
+  check_pseudos fs [] false false = true ->
+  forall drains,
+  read_frame_gen true true drains st (ser_frame a ++ rest) =
+  ROk (mkFrame (f_hdr (frame_of a)) (BMeta pr fs false)) (len (ser_frame a))
+      (mkFs 0 (fs_max st) (fs_maxlist st) (mkD t' (fs_maxlist st) true true [])).
+Proof. intros st sid es pr pad rs t' fs rest sk'. apply headers_block_roundtrip. exact (eq_refl true). Qed.
+Print Assumptions c18_headers_block_roundtrip.
+
+Example c18_headers_block_example :
+  let rs := [RIndexed 2; RIndexed 6; RIndexed 4; RLitNew KIncr true [120; 45; 97] false [49]] in
+  exists f n st, read_frame fs_new (ser_frame (AHeaders 1 true true None (flat_map ser_repr rs) None) ++ [0;0;0]) = ROk f n st /\
+                 f_body f = BMeta None [mkF N_method [71;69;84] false; mkF N_scheme [104;116;116;112] false; mkF N_path [47] false; mkF [120;45;97] [49] false] false.
+Proof. cbn zeta. do 3 eexists. split; vm_compute; reflexivity. Qed.
